@@ -13,7 +13,7 @@ package hackpadfs
 //@ lemma vpBasic(p string) := implies(VP(p), p != "" && !hasPrefix(p, "/") && !hasSuffix(p, "/") && !contains(p, "//"))
 //@ lemma replaceHead(x string, a string, b string) := implies(len(a) == 1 && len(b) == 1, replaceAll(a + x, a, b) == b + replaceAll(x, a, b))
 //@ lemma replaceNoHead(x string, a string, b string) := implies(len(a) == 1 && len(b) == 1 && x != "" && !hasPrefix(x, a) && !hasPrefix(x, b), !hasPrefix(replaceAll(x, a, b), b) && replaceAll(x, a, b) != "")
-//@ lemma replaceEmpty(a string, b string) := replaceAll("", a, b) == ""
+//@ lemma replaceEmpty(a string, b string) := implies(a != "", replaceAll("", a, b) == "")
 //@ lemma replaceInverse(x string, a string, b string) := implies(len(a) == 1 && len(b) == 1 && !contains(x, b), replaceAll(replaceAll(x, a, b), b, a) == x)
 //@ lemma replaceLen(x string, a string, b string) := implies(len(a) == 1 && len(b) == 1, len(replaceAll(x, a, b)) == len(x))
 //@ lemma dirValid(p string) := implies(VP(p), VP(pdir(p)) && VP(pbase(p)))
